@@ -95,7 +95,7 @@ def replay(w):
     import fast_ticc.admm as admm
     nt = w.get('notes') or {}
     kind = nt.get('kind')
-    if kind == 'task' and nt.get('has_message') is False and not w.get('_child'):
+    if ((kind == 'task' and nt.get('has_message') is False) or kind == 'library_error') and not w.get('_child'):
         return _bounded(w)
     gc.collect()
     gc.disable()
@@ -169,6 +169,28 @@ def replay(w):
             obs = {'raised': repr(raised), 'live_children_after_call': alive}
             if not isinstance(raised, RuntimeError) or 'donor' not in str(raised).lower():
                 return {'reproduced': True, 'signature': 'donor-shortage-not-a-clear-runtime-error', 'observed': obs}
+            if alive > 0:
+                return {'reproduced': True, 'signature': 'worker-processes-left-behind-after-failure', 'observed': obs}
+            return {'reproduced': False, 'signature': None, 'observed': obs}
+        if kind == 'library_error':
+            # a nested-list sparsity weight: the library's own ValueError is raised inside the worker
+            before = len(_children())
+            raised, res = None, None
+            try:
+                kw = dict(window_size=1, num_clusters=2, iteration_limit=2, min_cluster_size=2, sparsity_weight=[[0.1]],
+                          label_switching_cost=5.0)
+                if nt.get('joint'):
+                    d = _data(2)
+                    res = fast_ticc.ticc_joint_labels([d[:len(d) // 2], d[len(d) // 2:]], **kw)
+                else:
+                    res = fast_ticc.ticc_labels(_data(2), **kw)
+            except BaseException as exc:
+                raised = exc
+            time.sleep(0.3)
+            alive = len(_children()) - before
+            obs = {'raised': repr(raised), 'returned_result': res is not None, 'live_children_after_call': alive}
+            if res is not None or not isinstance(raised, ValueError) or 'ambda' not in str(raised):
+                return {'reproduced': True, 'signature': 'library-error-of-a-task-does-not-surface', 'observed': obs}
             if alive > 0:
                 return {'reproduced': True, 'signature': 'worker-processes-left-behind-after-failure', 'observed': obs}
             return {'reproduced': False, 'signature': None, 'observed': obs}
